@@ -648,10 +648,8 @@ impl Gen<'_> {
     fn op_mpl(&mut self) -> Option<String> {
         let (i, u) = self.upload()?;
         let (w, b, k) = self.upload_ctx(i);
-        // the backend lists parts in directory order: a clean history only lists uploads with at most one part
-        if self.clean && i.is_some_and(|i| self.sim.ups[i].parts.len() > 1) {
-            return None;
-        }
+        // (since 1d762a7 the backend lists parts in ascending part-number order: a clean history lists uploads with any
+        // number of parts)
         Some(format!("mpl:{w}:{}:{}:{u}", hs(&b), hs(&k)))
     }
 
@@ -792,9 +790,7 @@ impl Gen<'_> {
             let c = self.new_content(*len);
             self.ops.push(format!("mpu:{w}:{}:{}:{u}:{}:{c}", hs(&b), hs(&k), j + 1));
         }
-        if !self.clean {
-            self.ops.push(format!("mpl:{w}:{}:{}:{u}", hs(&b), hs(&k)));
-        }
+        self.ops.push(format!("mpl:{w}:{}:{}:{u}", hs(&b), hs(&k)));
         self.ops.push(format!("mpx:{w}:{}:{}:{u}:+1,2,3", hs(&b), hs(&k)));
         let total: usize = lens.iter().sum();
         self.sim.ups.last_mut().unwrap().alive = false;
